@@ -665,6 +665,9 @@ def write_evidence(prop, tier, seed, results, obligations, n_ob, n_failed, known
         "wall_s": round(wall, 2),
         "violations": len(violations),
     }
+    if n_ob == 0 or undecided:
+        ev["level"] = "other"
+        ev["coverage"]["explanation"] = "UNDECIDED run: nothing is claimed by this evidence file. " + "; ".join("%s: %s" % (r.unit, r.reason) for r in undecided)
     json.dump(ev, open(os.path.join(EVID, prop + ".json"), "w"), indent=1)
 
 if __name__ == "__main__":
